@@ -1,5 +1,5 @@
 // govc:pkg .
-// govc:bound 16 TRIGGER WHEN predicates x 6 output lists x 3 random feeds (quick; 10 with GOVC_BOUND=thorough) of 24 rows over 3 groups; one input field whose name ends in "or" (sensor) and one camelCase field (wLoad)
+// govc:bound 18 TRIGGER WHEN predicates (two mention one aggregate twice) x 6 output lists x 3 random feeds (quick; 10 with GOVC_BOUND=thorough) of 24 rows over 3 groups; one input field whose name ends in "or" (sensor) and one camelCase field (wLoad)
 // govc:also C04 C12
 // Bounded stand-in (NOT a proof) for the part of the global window that is regular-expression based and outside the
 // contracts (rewriting of the TRIGGER WHEN predicate and its binding to aggregates): a group fires exactly at the rows where
@@ -65,6 +65,11 @@ func govcGWPreds() []govcGWPred {
 		{"SUM(sensor) > SUM(wLoad)", func(v, w []float64) bool { return govcGWSum(v) > govcGWSum(w) }},
 		{"MAX(sensor) > 2 AND MAX(wLoad) > 2", func(v, w []float64) bool { return govcGWMax(v) > 2 && govcGWMax(w) > 2 }},
 		{"COUNT(*) >= 5", func(v, w []float64) bool { return len(v) >= 5 }},
+		// the same aggregate mentioned twice (a range check)
+		{"MAX(sensor) > 2 AND MAX(sensor) < 5", func(v, w []float64) bool { return govcGWMax(v) > 2 && govcGWMax(v) < 5 }},
+		{"SUM(sensor) > 4 AND SUM(sensor) < 9 OR COUNT(*) >= 6", func(v, w []float64) bool {
+			return govcGWSum(v) > 4 && govcGWSum(v) < 9 || len(v) >= 6
+		}},
 	}
 }
 
